@@ -283,3 +283,27 @@ Proof.
     + cbn. lia.
   - vm_compute in E. injection E as <- _ <-. split; vm_compute; reflexivity.
 Qed.
+
+(* the schedule separates the limiter that exists from the "steady cadence" alternative that moves
+   last_step by speed_ms instead of setting it to the time of the step: that one would step at 900 and
+   again at 905.  (Not part of any model: a witness that [rate_limited] on [burst_ticks] is a real
+   constraint, which an on-time or early-only schedule is not.) *)
+Fixpoint cadence_times (speed last : Z) (nows : list Z) : list Z :=
+  match nows with
+  | [] => []
+  | now :: rest =>
+      if negb ((0 <? speed) && (0 <? last) && (now - last <? speed))
+      then now :: cadence_times speed (if 0 <? last then last + speed else now) rest
+      else cadence_times speed last rest
+  end.
+
+Lemma ex_cadence_not_rate_limited : ~ rate_limited 100 (cadence_times 100 0 burst_ticks).
+Proof.
+  intro H. set (l := cadence_times 100 0 burst_ticks) in H. vm_compute in l. subst l.
+  specialize (H [50; 150; 250] 900 _ 905 eq_refl (or_introl eq_refl) ltac:(lia)). lia.
+Qed.
+
+Lemma ex_cadence_same_without_late_pass :
+  cadence_times 100 0 [50; 60; 149; 150; 151; 250; 300; 350; 351; 450] =
+  step_times (snd (drun1 Scroll 8 (fst (dstart Scroll 8 0 [72; 101; 121] 100 true)) [50; 60; 149; 150; 151; 250; 300; 350; 351; 450])).
+Proof. vm_compute. reflexivity. Qed.
